@@ -32,6 +32,7 @@ def run_job(job, timeout_ms=20000, seed=0, mode=None):
     """Runs in a worker process.  Returns a picklable dictionary."""
     t0 = time.time()
     kind = job[0]
+    full_job = job
     res = {"job": job, "obligations": [], "paths": 0, "outcomes": {}, "error": None,
            "undecided": None, "solver_time": 0.0, "solver_calls": 0, "unknown_branches": 0,
            "inlined": [], "hashes": {}}
@@ -39,6 +40,9 @@ def run_job(job, timeout_ms=20000, seed=0, mode=None):
         from vc.values import Undecided
         Engine, Lib, common = load()
         eng = Engine(SOURCES, timeout_ms=timeout_ms, seed=seed)
+        if isinstance(job[-1], tuple) and job[-1] and job[-1][0] == "shard":
+            eng.shard = (job[-1][1], job[-1][2], job[-1][3] if len(job[-1]) > 3 else 0)
+            job = job[:-1]
         eng.contracts = dict(common.REGISTRY)
         lib = Lib()
         try:
